@@ -35,6 +35,9 @@ pub const TRANSITION_HORIZON: usize = 5_000;
 /// Idle turns (H4) inside one poll after which the runner is declared spinning.
 pub const IDLE_LIMIT: u64 = 2_000;
 
+/// Calls of the sentinel panic hook on any thread of the process.
+static SENTINEL_ANY_THREAD: std::sync::atomic::AtomicUsize = std::sync::atomic::AtomicUsize::new(0);
+
 thread_local! {
     /// Events recorded by subjects, waiting to be stamped by the executor.
     static PENDING: RefCell<Vec<Ev>> = const { RefCell::new(Vec::new()) };
@@ -224,7 +227,10 @@ fn install_sentinel() -> usize {
         s.set(s.get() + 1);
         s.get()
     });
+    SENTINEL_ANY_THREAD.store(0, Ordering::SeqCst);
     panic::set_hook(Box::new(move |_| {
+        // (user code may panic on a helper thread: count across threads)
+        SENTINEL_ANY_THREAD.fetch_add(1, Ordering::SeqCst);
         SENTINEL.with(|s| s.set(s.get() + 1));
         SENTINEL_FIRED.with(|s| s.set(id));
     }));
@@ -477,7 +483,7 @@ pub fn execute(
             prefix.len()
         )));
     }
-    tr.sentinel_during = SENTINEL.with(Cell::get);
+    tr.sentinel_during = SENTINEL_ANY_THREAD.load(Ordering::SeqCst);
     if tr.ended {
         // Probe: is the hook installed before the run in place again?
         let before = SENTINEL.with(Cell::get);
